@@ -75,6 +75,13 @@ impl Check for C16 {
         o.profile.long_lists = 0;
         o.crlf = false;
         let mut lib = libgen::gen_lib(&mut rng, &o).texts;
+        // plus an outline library (heading trees, acyclic reference graph with diamonds and shared sub-notes),
+        // so that the path listing and the search index are rich; keys are disjoint (prefix o/)
+        let (outline, _) = crate::checks::libq::gen_outline_lib(&mut rng, 40, false);
+        for (k, t) in outline {
+            // relative links keep their meaning when the whole sub-library moves under o/
+            lib.insert(format!("o/{}", k), t);
+        }
         // duplicate titles and equal ranks: a handful of notes share one title
         let keys: Vec<String> = lib.keys().cloned().collect();
         for k in keys.iter().take(6) {
